@@ -27,12 +27,13 @@ import (
 )
 
 func main() {
-	debug.SetGCPercent(400)
 	fams := flag.String("fams", "", "comma-separated family names (default all)")
 	kflag := flag.Int("k", 0, "max sequence length (default 4 quick / 6 thorough)")
 	nflag := flag.Int("n", 0, "menu size (default 6 quick / all thorough)")
 	nomemo := flag.Bool("nomemo", false, "disable state memoisation")
+	gcp := flag.Int("gc", 400, "GC percent")
 	r := vk.New("model_checking")
+	debug.SetGCPercent(*gcp)
 	r.SetBudget(150*time.Second, 25*time.Minute)
 	k, n := 4, 6
 	if r.Thorough() {
